@@ -71,6 +71,22 @@ var (
 	pClear   = mk(0x23)
 	pSdEmpty = mk(0x24) // self-destructing contract without balance of its own
 	pCrColl  = mk(0x25) // CREATE with value whose target address is already occupied (collision)
+	// multi-call scenarios: targets that self-destruct when called without value and just accept a call with value
+	pT2Sink   = mk(0x30) // beneficiary: existing account
+	pT2Fresh  = mk(0x31) // beneficiary: an account that does not exist
+	pT2Self   = mk(0x32) // beneficiary: itself (burn)
+	pFunder   = mk(0x33) // third contract that sends value to pT2Sink
+	pRepeat   = mk(0x34) // driver: destruct, fund, destruct, destruct, destruct
+	pRepeatF  = mk(0x35) // driver: destruct, fund through pFunder, destruct, destruct
+	pRepeatN  = mk(0x36) // driver on pT2Fresh
+	pRepeatS  = mk(0x37) // driver on pT2Self
+	pSdCreate = mk(0x38) // CREATE with value, then self-destruct
+	pSdCrDrv  = mk(0x39) // driver: calls pSdCreate three times, funding it in between (CREATE from a destructed contract)
+	pChainA   = mk(0x3a) // self-destructs to pChainB
+	pChainB   = mk(0x3b) // self-destructs to sink
+	pChainD   = mk(0x3c) // driver: A, B, fund A, A, B, B
+	pRevWrap  = mk(0x3d) // calls pT2Sink then fails (the self-destruct is reverted)
+	pRevDrv   = mk(0x3e) // driver: reverted destruct, real destruct, fund, reverted destruct, destruct, destruct
 )
 
 // ------------------------------------------------------------------ issuance schedule, from the property text
@@ -419,6 +435,32 @@ type prog struct {
 
 func A() *Asm { return &Asm{} }
 
+// acceptOrDestruct: a call that carries value is accepted (STOP); a call without value self-destructs to the
+// beneficiary pushed by `ben`
+func acceptOrDestruct(ben *Asm) []byte {
+	// CALLVALUE ISZERO PUSH1 6 JUMPI STOP JUMPDEST <ben> SELFDESTRUCT
+	a := A().Op(0x34, ISZERO).Push(6).Op(JUMPI, STOP, JUMPDEST)
+	a.B = append(a.B, ben.B...)
+	return a.Op(SELFDESTRUCT).B
+}
+
+type callStep struct {
+	to    common.Address
+	value uint64
+}
+
+func c0(a common.Address) callStep           { return callStep{a, 0} }
+func cv(a common.Address, v uint64) callStep { return callStep{a, v} }
+
+// seq: a driver that makes the given calls one after the other, ignoring their results
+func seq(steps ...callStep) []byte {
+	a := A()
+	for _, st := range steps {
+		a.Call(70000, st.to, st.value).Op(POP)
+	}
+	return a.Op(STOP).B
+}
+
 func progs() []prog {
 	// CALL(gas 0, COINBASE / CALLER, value 3)
 	payTo := func(op byte) []byte {
@@ -446,6 +488,21 @@ func progs() []prog {
 		{name: "pay-coinbase", addr: pPayCb, code: payTo(COINBASE), bal: 10},
 		{name: "clear", addr: pClear, code: A().SStore(0, 0).SStore(1, 0).SStore(2, 1).Op(STOP).B, st: map[byte]byte{0: 1, 1: 1}},
 		{name: "sd-empty", addr: pSdEmpty, code: A().PushAddr(fresh2).Op(SELFDESTRUCT).B},
+		{name: "t2-sink", addr: pT2Sink, code: acceptOrDestruct(A().PushAddr(sink)), bal: 10},
+		{name: "t2-fresh", addr: pT2Fresh, code: acceptOrDestruct(A().PushAddr(fresh2)), bal: 10},
+		{name: "t2-self", addr: pT2Self, code: acceptOrDestruct(A().Op(ADDRESS)), bal: 10},
+		{name: "funder", addr: pFunder, code: A().Call(60000, pT2Sink, 4).Op(POP).Op(STOP).B, bal: 20},
+		{name: "repeat", addr: pRepeat, code: seq(c0(pT2Sink), cv(pT2Sink, 5), c0(pT2Sink), c0(pT2Sink), c0(pT2Sink)), bal: 30},
+		{name: "repeat-funder", addr: pRepeatF, code: seq(c0(pT2Sink), c0(pFunder), c0(pT2Sink), c0(pT2Sink)), bal: 30},
+		{name: "repeat-fresh", addr: pRepeatN, code: seq(c0(pT2Fresh), cv(pT2Fresh, 5), c0(pT2Fresh), c0(pT2Fresh)), bal: 30},
+		{name: "repeat-self", addr: pRepeatS, code: seq(c0(pT2Self), cv(pT2Self, 5), c0(pT2Self), cv(pT2Self, 2), c0(pT2Self), c0(pT2Self)), bal: 30},
+		{name: "sd-create", addr: pSdCreate, code: A().Create(1, A().SStore(0, 1).Op(STOP).B).Op(POP).PushAddr(sink).Op(SELFDESTRUCT).B, bal: 10},
+		{name: "sd-create-driver", addr: pSdCrDrv, code: seq(c0(pSdCreate), cv(pSdCreate, 3), c0(pSdCreate)), bal: 30},
+		{name: "chain-a", addr: pChainA, code: acceptOrDestruct(A().PushAddr(pChainB)), bal: 10},
+		{name: "chain-b", addr: pChainB, code: acceptOrDestruct(A().PushAddr(sink)), bal: 10},
+		{name: "chain-driver", addr: pChainD, code: seq(c0(pChainA), c0(pChainB), cv(pChainA, 2), c0(pChainA), c0(pChainB), c0(pChainB)), bal: 30},
+		{name: "revert-wrap", addr: pRevWrap, code: A().Call(60000, pT2Sink, 0).Op(POP).Op(INVALID).B},
+		{name: "revert-driver", addr: pRevDrv, code: seq(c0(pRevWrap), c0(pT2Sink), cv(pT2Sink, 5), c0(pRevWrap), c0(pT2Sink), c0(pT2Sink)), bal: 30},
 		{name: "create-collide", addr: pCrColl, code: A().Create(2, A().SStore(0, 1).Op(STOP).B).Op(POP).Op(STOP).B, bal: 10},
 	}
 }
@@ -497,6 +554,14 @@ func txKinds() []txKind {
 		{name: "selfdestruct-then-outer-fails", mk: to(pSdRevO), sd: true},
 		{name: "selfdestruct-then-paid-again", mk: to(pSdPayO), sd: true},
 		{name: "selfdestruct-without-own-balance", mk: to(pSdEmpty), sd: true},
+		{name: "multi:destruct-fund-destruct-x3", mk: to(pRepeat), sd: true},
+		{name: "multi:destruct-fund-via-third-contract-destruct-x2", mk: to(pRepeatF), sd: true},
+		{name: "multi:destruct-to-fresh-fund-destruct-x2", mk: to(pRepeatN), sd: true},
+		{name: "multi:destruct-to-self-fund-destruct-repeatedly", mk: to(pRepeatS), sd: true},
+		{name: "multi:destruct-then-create-from-destructed", mk: to(pSdCrDrv), sd: true},
+		{name: "multi:beneficiary-destructs-later", mk: to(pChainD), sd: true},
+		{name: "multi:destruct-in-reverted-frame-and-again", mk: to(pRevDrv), sd: true},
+		{name: "multi:target-called-directly", mk: to(pT2Sink), sd: true},
 		{name: "pay-sender", mk: to(pPaySnd)},
 		{name: "pay-coinbase", mk: to(pPayCb), sd: true}, // runs the coinbase's code (stipend) when the coinbase is the contract
 		{name: "sstore-clear-refund", mk: to(pClear)},
@@ -507,7 +572,7 @@ func pickValue(r *vh.RNG) *big.Int {
 	return []*big.Int{bi(0), bi(0), bi(1), bi(5), bi(1000), Big("1000000000000000")}[r.Intn(6)]
 }
 
-const txGas = 400000
+const txGas = 700000
 
 func buildTx(k txKind, e *txEnv, r *vh.RNG, nonce uint64, signer types.Signer, second bool) *types.Transaction {
 	to, data := k.mk(e, r)
@@ -538,7 +603,7 @@ func baseUniverse(aStart, count uint64) Universe {
 		u = append(u, p.addr)
 	}
 	for n := uint64(0); n < count; n++ {
-		u = append(u, crypto.CreateAddress(addrA, aStart+n), crypto.CreateAddress(addrB, n), crypto.CreateAddress(pCrFail, n), crypto.CreateAddress(pCrOK, n), crypto.CreateAddress(pCrColl, n))
+		u = append(u, crypto.CreateAddress(addrA, aStart+n), crypto.CreateAddress(addrB, n), crypto.CreateAddress(pCrFail, n), crypto.CreateAddress(pCrOK, n), crypto.CreateAddress(pCrColl, n), crypto.CreateAddress(pSdCreate, n))
 	}
 	return u
 }
@@ -546,6 +611,19 @@ func baseUniverse(aStart, count uint64) Universe {
 func deallocAddr(i int) common.Address { return common.HexToAddress(misc.DeallocListHF4[i]) }
 
 // ================================================================== PART 2: blocks through Process and the model
+
+// forcedKind, when set, makes genBlock build a block of two transactions of that kind (directed cases, run on every seed)
+var forcedKind string
+
+func directedKinds() []string {
+	var out []string
+	for _, k := range txKinds() {
+		if strings.HasPrefix(k.name, "multi:") || strings.HasPrefix(k.name, "selfdestruct-") || k.name == "inner-create-value-collision" {
+			out = append(out, k.name)
+		}
+	}
+	return out
+}
 
 type cfgChoice struct {
 	cfg  Cfg
@@ -698,7 +776,10 @@ func genBlock(c *vh.Ctx) *blockCase {
 	env := &txEnv{dealloc: b.dealloc, coinbase: b.coinbase}
 	nonce := map[common.Address]uint64{addrA: nonceA, addrB: 0}
 	n := r.Intn(6)
-	wantSD := r.Intn(100) < 45 // otherwise only kinds that cannot reach SELFDESTRUCT: the block is then checked for exact equality
+	if forcedKind != "" {
+		n = 2 // the directed scenario in two consecutive transactions of the block
+	}
+	wantSD := r.Intn(100) < 45 || forcedKind != "" // otherwise only kinds that cannot reach SELFDESTRUCT: the block is then checked for exact equality
 	for i := 0; i < n; i++ {
 		second := r.Intn(3) == 0
 		from := addrA
@@ -710,6 +791,19 @@ func genBlock(c *vh.Ctx) *blockCase {
 			k = kinds[r.Intn(len(kinds))]
 			if wantSD || !k.sd {
 				break
+			}
+		}
+		if forcedKind != "" {
+			for _, kk := range kinds {
+				if kk.name == forcedKind {
+					k = kk
+				}
+			}
+		} else if i > 0 && wantSD && r.Intn(4) == 0 {
+			for _, kk := range kinds { // repeat the previous transaction's kind: the same scenario across two transactions of one block
+				if kk.name == b.kinds[i-1] {
+					k = kk
+				}
 			}
 		}
 		b.txs = append(b.txs, buildTx(k, env, r, nonce[from], signer, second))
@@ -807,6 +901,30 @@ func runBlock(c *vh.Ctx, m *vh.Model, b *blockCase) {
 			c.Violate("tx-inflation/"+scen, fmt.Sprintf("a transaction raised the sum of balances by %s", Sub(after, before)), rp())
 		} else if !run.T.SawSelfdestruct && after.Cmp(before) != 0 {
 			c.Violate("tx-supply-not-conserved/"+scen, fmt.Sprintf("a transaction without SELFDESTRUCT changed the sum of balances by %s", Sub(after, before)), rp())
+		}
+		if run.T.SawSelfdestruct && run.T.Started && run.T.Ended && !run.T.SelfBeneficiary {
+			// exact even with SELFDESTRUCT: the only value that may disappear is what accounts flagged suicided hold when
+			// the execution ends (they are deleted with it), plus the fee if the coinbase is one of them
+			burn := new(big.Int)
+			if run.Receipt.Status == types.ReceiptStatusSuccessful {
+				burn.Set(run.T.BurnAtEnd)
+				for _, a := range run.T.Suicided {
+					if a == b.coinbase {
+						burn.Add(burn, Mul(U(run.Receipt.GasUsed), tx.GasPrice()))
+					}
+					if a == b.froms[i] {
+						burn = nil // not reachable: an externally owned sender has no code
+						break
+					}
+				}
+			}
+			if burn != nil && Sub(before, after).Cmp(burn) != 0 {
+				c.Violate("tx-supply-not-exact-with-selfdestruct/"+scen, fmt.Sprintf("sum of balances changed by %s, the deleted accounts held %s", Sub(after, before), burn), rp())
+			}
+			c.Count("tx:selfdestruct-supply-checked-exactly")
+		}
+		if run.T.NSelfdestruct >= 3 {
+			c.Count("tx:three-or-more-selfdestructs")
 		}
 		if after.Cmp(before) < 0 {
 			c.Count("tx:burned-by-selfdestruct")
@@ -1157,6 +1275,11 @@ func main() {
 			runRewards(c, m, i)
 		case "block":
 			runBlock(c, m, genBlock(c))
+		case "block-directed":
+			dk := directedKinds()
+			forcedKind = dk[i%len(dk)]
+			runBlock(c, m, genBlock(c))
+			forcedKind = ""
 		case "chain":
 			runChain(c, i)
 		default:
@@ -1177,6 +1300,9 @@ func main() {
 	nr := on("1", c.Scale(700, 14000))
 	for i := 0; i < nr; i++ {
 		one("rewards", i)
+	}
+	for i := 0; i < on("2", 2*len(directedKinds())); i++ {
+		one("block-directed", i)
 	}
 	nb := on("2", c.Scale(450, 9000))
 	for i := 0; i < nb; i++ {
